@@ -291,7 +291,7 @@ func c20Session(t *rapid.T) {
 	nsteps := rapid.IntRange(3, 16).Draw(t, "steps")
 	for i := 0; i < nsteps; i++ {
 		a := rapid.SampledFrom([]string{"up", "down", "up", "down", "first", "last", "pos(3)", "put(a)", "put(b)", "backward-delete-char", "change-query(it1)", "clear-query", "toggle", "toggle-all", "refresh-preview",
-			"toggle-preview", "change-preview-window(up,50%)", "change-preview-window(right,60%)", "change-preview", "change-preview", "change-preview", "burst"}).Draw(t, "action")
+			"toggle-preview", "change-preview-window(up,50%)", "change-preview-window(right,60%)", "change-preview", "change-preview", "change-preview", "burst", "scroll-then-move"}).Draw(t, "action")
 		gap := time.Duration(rapid.SampledFrom([]int{0, 0, 5, 30, 120, 200}).Draw(t, "gapMs")) * time.Millisecond
 		switch a {
 		case "toggle-preview":
@@ -309,6 +309,20 @@ func c20Session(t *rapid.T) {
 		case "toggle", "toggle-all":
 			if !multi {
 				a = "down"
+			}
+		case "scroll-then-move":
+			// the preview of one line is scrolled, then another line is focused: its preview starts at the top
+			a = ""
+			if st, err := s.Get(1, 0); err == nil && st.MatchCount >= 2 && visible {
+				k := rapid.IntRange(1, 4).Draw(t, "scrollBy")
+				scroll := strings.TrimSuffix(strings.Repeat(rapid.SampledFrom([]string{"preview-down+", "preview-half-page-down+"}).Draw(t, "scrollAction"), k), "+")
+				s.Post(scroll)
+				history = append(history, "POST "+scroll)
+				time.Sleep(time.Duration(rapid.SampledFrom([]int{0, 30, 150}).Draw(t, "scrollGapMs")) * time.Millisecond)
+				a = "up"
+				if st.Position >= st.MatchCount-1 {
+					a = "down"
+				}
 			}
 		case "burst":
 			// cursor movements faster than a process can start
